@@ -582,6 +582,35 @@ fn minimise_points(pts: &[DVec3]) -> (Vec<DVec3>, u64, String) {
     (cur, last.0, last.1)
 }
 
+/// Smallest over largest pairwise distance of a point set.
+fn near_duplicate_ratio(pts: &[DVec3]) -> f64 {
+    let (mut lo, mut hi) = (f64::INFINITY, 0.0f64);
+    for i in 0..pts.len() {
+        for j in i + 1..pts.len() {
+            let d = pts[i].distance(pts[j]);
+            lo = lo.min(d);
+            hi = hi.max(d);
+        }
+    }
+    if hi > 0.0 {
+        lo / hi
+    } else {
+        1.0
+    }
+}
+
+/// Signature of a violation, for matching against `known_findings.json`.
+fn signature(clause: &str, desc: &str, payload: &J) -> String {
+    if (clause == "welzl" || clause == "welzl_structured") && desc.contains("exceeds_minimal") {
+        if let Some(Ok(pts)) = payload.get("points").map(pts_from) {
+            if near_duplicate_ratio(&pts) < 1e-6 {
+                return "welzl_nonminimal_near_duplicate_points".into();
+            }
+        }
+    }
+    clause.to_string()
+}
+
 struct SlowGuard(u64, Instant);
 impl Drop for SlowGuard {
     fn drop(&mut self) {
@@ -623,9 +652,11 @@ pub fn cmd_c20(args: &Args) -> i32 {
     let mut code = 0;
 
     let mut report = |clause: &str, idx: u64, desc: &str, payload: J, violations: &mut Vec<J>, known_hits: &mut BTreeMap<String, u64>| -> bool {
-        if known.contains(clause) {
-            let fam = payload.get("family").and_then(|f| f.as_str()).unwrap_or("");
-            *known_hits.entry(format!("{}{}{}", clause, if fam.is_empty() { "" } else { ":" }, fam)).or_insert(0) += 1;
+        // A known finding is identified by its signature: the clause together with the
+        // specific circumstances that make it fail. Anything else is reported.
+        let sig = signature(clause, desc, &payload);
+        if known.contains(&sig) {
+            *known_hits.entry(sig).or_insert(0) += 1;
             return false;
         }
         let j = payload
